@@ -311,6 +311,7 @@ where
         Err(()) => out.push(2),
     }
     out.push(vh::nodes::OUTSIDE.with(|c| c.get()));
+    out.push(vh::nodes::INVALID.with(|c| c.get()));
     out
 }
 
